@@ -1,1 +1,198 @@
-//! harness package hquic
+//! harness package hquic: helpers shared by the C16 binaries (real compio-quic endpoints on loopback).
+use std::{
+    future::Future,
+    pin::Pin,
+    sync::{
+        Arc,
+        atomic::{AtomicUsize, Ordering},
+    },
+    task::{Context, Poll, Wake, Waker},
+    time::Duration,
+};
+
+use compio_quic::{
+    ClientBuilder, ClientConfig, Connection, Endpoint, ServerBuilder, ServerConfig,
+    TransportConfig, VarInt,
+};
+
+/// Stream receive window of the "small" setting (bytes).
+pub const SMALL_WINDOW: u64 = 2048;
+
+/// One self-signed certificate per process.
+pub struct Certs {
+    cert: Vec<u8>,
+    key: Vec<u8>,
+}
+
+impl Certs {
+    pub fn new() -> Self {
+        let rcgen::CertifiedKey { cert, signing_key } =
+            rcgen::generate_simple_self_signed(vec!["localhost".into()]).unwrap();
+        Self {
+            cert: cert.der().to_vec(),
+            key: signing_key.serialize_der(),
+        }
+    }
+
+    pub fn server(&self, transport: TransportConfig) -> ServerConfig {
+        let mut c = ServerBuilder::new_with_single_cert(
+            vec![self.cert.clone().into()],
+            self.key.clone().try_into().unwrap(),
+        )
+        .unwrap()
+        .build();
+        c.transport_config(Arc::new(transport));
+        c
+    }
+
+    pub fn client(&self, transport: TransportConfig) -> ClientConfig {
+        let mut c = ClientBuilder::new_with_empty_roots()
+            .with_custom_certificate(self.cert.clone().into())
+            .unwrap()
+            .with_no_crls()
+            .build();
+        c.transport_config(Arc::new(transport));
+        c
+    }
+}
+
+impl Default for Certs {
+    fn default() -> Self {
+        Self::new()
+    }
+}
+
+/// Transport parameters of one side. Timeouts are generous: nothing in the harness relies on
+/// a protocol timer firing, and a loaded machine must not lose a connection to an idle timeout.
+#[derive(Clone, Copy, Debug)]
+pub struct Tp {
+    /// stream receive window (None = quinn default)
+    pub stream_window: Option<u64>,
+    /// connection receive window (None = default)
+    pub conn_window: Option<u64>,
+    pub max_uni: u32,
+    pub max_bi: u32,
+    /// datagram send buffer (None = default)
+    pub dgram_send_buf: Option<usize>,
+}
+
+impl Tp {
+    pub fn build(&self) -> TransportConfig {
+        let mut t = TransportConfig::default();
+        t.max_idle_timeout(Some(Duration::from_secs(120).try_into().unwrap()));
+        // loopback: a small initial RTT estimate keeps the drain period after a close short
+        t.initial_rtt(Duration::from_millis(20));
+        if let Some(w) = self.stream_window {
+            t.stream_receive_window(VarInt::from_u64(w).unwrap());
+        }
+        if let Some(w) = self.conn_window {
+            t.receive_window(VarInt::from_u64(w).unwrap());
+        }
+        t.max_concurrent_uni_streams(self.max_uni.into());
+        t.max_concurrent_bidi_streams(self.max_bi.into());
+        if let Some(b) = self.dgram_send_buf {
+            t.datagram_send_buffer_size(b);
+        }
+        t
+    }
+}
+
+/// Byte `i` of the payload of stream number `s`: a running 32-bit counter (little endian words)
+/// mixed with the stream number, so that a displaced, duplicated or foreign byte is visible.
+#[inline]
+pub fn pat(s: u32, i: u64) -> u8 {
+    let word = (i / 4) as u32;
+    let b = (word >> (8 * (i % 4) as u32)) as u8;
+    b ^ (s as u8).wrapping_mul(0x5b) ^ 0xa5
+}
+
+pub fn fill(s: u32, off: u64, n: usize) -> Vec<u8> {
+    (0..n as u64).map(|j| pat(s, off + j)).collect()
+}
+
+/// Does `data` equal the pattern of stream `s` at offset `off`?
+pub fn matches(s: u32, off: u64, data: &[u8]) -> bool {
+    data.iter().enumerate().all(|(j, &b)| b == pat(s, off + j as u64))
+}
+
+/// Waker that counts its wake-ups (and nothing else: the harness polls on its own schedule).
+pub struct CountWake(pub AtomicUsize);
+
+impl Wake for CountWake {
+    fn wake(self: Arc<Self>) {
+        self.0.fetch_add(1, Ordering::SeqCst);
+    }
+
+    fn wake_by_ref(self: &Arc<Self>) {
+        self.0.fetch_add(1, Ordering::SeqCst);
+    }
+}
+
+pub struct Probe<T> {
+    pub fut: Pin<Box<dyn Future<Output = T>>>,
+    pub count: Arc<CountWake>,
+    pub waker: Waker,
+    dead: bool,
+}
+
+impl<T> Probe<T> {
+    pub fn new(fut: impl Future<Output = T> + 'static) -> Self {
+        let count = Arc::new(CountWake(AtomicUsize::new(0)));
+        let waker = Waker::from(count.clone());
+        Self {
+            fut: Box::pin(fut),
+            count,
+            waker,
+            dead: false,
+        }
+    }
+
+    pub fn poll(&mut self) -> Poll<T> {
+        let mut cx = Context::from_waker(&self.waker);
+        self.fut.as_mut().poll(&mut cx)
+    }
+
+    /// Poll; a panic of the code under test is data (Err(message)); the future is not polled again.
+    pub fn poll_catch(&mut self) -> Result<Poll<T>, String> {
+        if self.dead {
+            return Ok(Poll::Pending);
+        }
+        let r = std::panic::catch_unwind(std::panic::AssertUnwindSafe(|| self.poll()));
+        r.map_err(|e| {
+            self.dead = true;
+            hcore::out::panic_msg(e)
+        })
+    }
+
+    pub fn wakes(&self) -> usize {
+        self.count.0.load(Ordering::SeqCst)
+    }
+}
+
+/// Establish one connection client -> server; returns (client side, server side).
+pub async fn connect_pair(
+    client: &Endpoint,
+    server: &Endpoint,
+    ccfg: ClientConfig,
+    scfg: ServerConfig,
+) -> Result<(Connection, Connection), String> {
+    let addr = server.local_addr().map_err(|e| e.to_string())?;
+    let connecting = client
+        .connect(addr, "localhost", Some(ccfg))
+        .map_err(|e| format!("connect: {e}"))?;
+    let (c, s) = futures_util::join!(connecting, async {
+        let inc = server.wait_incoming().await.ok_or("endpoint closed")?;
+        let connecting = inc.accept_with(scfg).map_err(|e| format!("accept: {e}"))?;
+        connecting.await.map_err(|e| format!("server handshake: {e}"))
+    });
+    let c = c.map_err(|e| format!("client handshake: {e}"))?;
+    Ok((c, s?))
+}
+
+/// Run `fut` with a watchdog; None = the watchdog fired.
+pub async fn with_watchdog<T>(d: Duration, fut: impl Future<Output = T>) -> Option<T> {
+    compio_runtime::time::timeout(d, fut).await.ok()
+}
+
+pub mod programs;
+pub mod wakers;
